@@ -13,7 +13,9 @@ BUILD = os.path.join(VERIF, "_build")
 REPO = os.environ.get("VERIF_REPO", "/repo")
 
 CODES = {1: "model and implementation differ", 2: "unmodelled", 3: "model out of fuel",
-         4: "observed outcome violates the property checker", 5: "observed outcome violates the property checker (relation between calls)"}
+         4: "observed outcome violates the property checker", 5: "observed outcome violates the property checker (relation between calls)",
+         6: "the harness renders the reference expression differently from Spec/Unparse.v",
+         7: "reference semantics (specification) and implementation differ"}
 
 sys.path.insert(0, os.path.join(VERIF, "tools"))
 from props import PROPS  # per-property configuration
@@ -79,7 +81,7 @@ def build_tools(race=False):
     hdir = os.path.join(BUILD, "harness_src")
     os.makedirs(hdir, exist_ok=True)
     for f in os.listdir(hsrc):
-        if f.endswith(".go"):
+        if f.endswith(".go") or f.endswith(".json"):
             write_if_changed(os.path.join(hdir, f), open(os.path.join(hsrc, f)).read())
     for f in os.listdir(hdir):
         if f.endswith(".go") and not os.path.exists(os.path.join(hsrc, f)):
@@ -283,7 +285,7 @@ def main():
                     results.extend(bad)
             total = summary.get("cases", 0)
             for cid, code in results:
-                key = {1: "mismatch", 2: "unmodelled", 3: "stuck", 4: "property", 5: "property"}.get(code, "mismatch")
+                key = {1: "mismatch", 2: "unmodelled", 3: "stuck", 4: "property", 5: "property", 7: "property"}.get(code, "mismatch")
                 counts[key] += 1
                 if code == 2:
                     continue
